@@ -252,6 +252,26 @@ def oracle_a(out: Outcome, target: str, w: Any, backend: str, r: Any) -> Outcome
         kind = "aliased-member" if last in ("_meta", "schema") else ("extra-member" if last not in {f["wire"] for f in fields_of(cls)} and key.count(".") == 1 else "member")
         out.fail(f"wire-member-not-preserved:{kind}:{backend}", f"{name}: {lost}")
         return out
+    # the same containment for the other dump modes (nulls kept: by_alias and exclude_none are independent flags)
+    for key_, label in (("$dump_alias_only", "model_dump(by_alias=True)"), ("$dump_alias_json_mode", "model_dump(by_alias=True, exclude_none=True, mode='json')")):
+        d2 = r[1].get(key_) if isinstance(r[1], dict) else None
+        if d2 is None:
+            continue
+        if isinstance(d2, (list, tuple)) and len(d2) == 2 and d2[0] == "$error":
+            if key_ == "$dump_alias_only":
+                out.fail(f"dump-mode-raises:{backend}", f"{name}.{label}: {d2[1]}")
+                return out
+            continue  # mode= is a Pydantic-only argument
+        lost2 = contained(w, d2)
+        if lost2:
+            last = lost2.split(":")[0].rsplit(".", 1)[-1].split("[")[0]
+            kind = "aliased-member" if last in ("_meta", "schema") else "member"
+            out.fail(f"wire-member-not-preserved:{kind}:{backend}:{key_[1:]}", f"{name}.{label}: {lost2}")
+            return out
+        leak = leaked_attribute_names(d2)
+        if leak and not ({"schema_", "meta"} & _all_keys(w)):
+            out.fail(f"attribute-name-in-dump:{backend}:{key_[1:]}", f"{name}.{label}: {leak}")
+            return out
     # typed view: attribute access reflects the wire value of every declared member
     attrs = r[1].get("$attrs", {}) if isinstance(r[1], dict) else {}
     for f in fields_of(cls):
